@@ -44,6 +44,11 @@ WiringPoints ==
   \cup {Opt(<<U, U, U>>, sh, -1, FALSE, TRUE) : sh \in {[NoSh EXCEPT !.parent = TRUE], [NoSh EXCEPT !.discard = TRUE],
                                                        [NoSh EXCEPT !.file = FFD], [NoSh EXCEPT !.path = PATHS]}}
   \cup {Opt(<<R(T_PIPE, 0, 0, ""), b, c>>, NoSh, 2, FALSE, TRUE) : b \in {U, R(T_PARENT, 0, 0, "")}, c \in {U, R(T_STDOUT, 0, 0, "")}}
+  \* user-supplied handles / FILEs that are themselves the parent's descriptors 1 or 2 (crossed over, shared, or next to pipes)
+  \cup {Opt(<<a, b, c>>, NoSh, -1, FALSE, TRUE) :
+          a \in {U, R(T_DISCARD, 0, 0, "")},
+          b \in {U, R(T_HANDLE, 2, 0, ""), R(T_FILE, 0, 2, ""), R(T_HANDLE, 1, 0, ""), R(T_PARENT, 0, 0, "")},
+          c \in {U, R(T_PIPE, 0, 0, ""), R(T_HANDLE, 1, 0, ""), R(T_FILE, 0, 1, ""), R(T_HANDLE, 2, 0, ""), R(T_STDOUT, 0, 0, "")}}
 
 (* ---- family "env" (C03 C12): argv, environment, working directory, program resolution, signal state ---- *)
 EnvBase == [argvx |-> <<>>, envb |-> 0, envx |-> <<"none">>, penv |-> <<"P=1">>, wd |-> "", prog |-> "/bin/c",
@@ -91,7 +96,9 @@ ExpProgLen == IF X.wd # "" /\ IsRel(X.prog) THEN (IF X.cwdlen = 1 THEN 1 ELSE X.
 ExpEnv == (IF X.envb = 0 THEN X.penv ELSE <<>>) \o (IF X.envx = <<"none">> THEN <<>> ELSE X.envx)
 ENAMETOOLONG == -36
 
-Init == phase = "pick" /\ o \in Points /\ k \in {[std |-> s, hasInput |-> FALSE] : s \in StdSets}
+LowHandle(pt) == \E s \in 1..3 : (pt.rd[s].h \in {1, 2}) \/ (pt.rd[s].f \in {1, 2})
+Init == /\ phase = "pick" /\ o \in Points /\ k \in {[std |-> s, hasInput |-> FALSE] : s \in StdSets}
+        /\ LowHandle(o) => k.std = <<TRUE, TRUE, TRUE>>
 
 RJ(r) == <<r.t, r.h, r.f, r.p>>
 CfgRec == [e |-> "cfg", cap |-> 8, limit |-> 32, fds |-> [s \in 1..3 |-> IF k.std[s] THEN 1 ELSE 0], extra |-> Extras]
